@@ -181,7 +181,22 @@ func (s *Solver) readLine() (string, error) {
 func (s *Solver) Check(extra *Term) SatResult {
 	s.queries++
 	start := time.Now()
-	defer func() { s.solveT += time.Since(start) }()
+	defer func() {
+		d := time.Since(start)
+		s.solveT += d
+		if d > 2*time.Second && os.Getenv("GOSYM_SLOWQ") != "" {
+			sz := 0
+			if extra != nil {
+				sz = extra.size
+			}
+			fmt.Fprintf(os.Stderr, "[slow query] %.1fs extra-size=%d %s\n", d.Seconds(), sz, func() string {
+				if extra != nil {
+					return extra.String()
+				}
+				return ""
+			}())
+		}
+	}()
 	if extra != nil {
 		if extra.isConst() {
 			if !extra.bval {
